@@ -23,6 +23,13 @@ fn creds(kind: u8) -> (Vec<String>, bool, &'static str) {
         3 => (vec!["Authorization: Basic !!!notbase64".into()], false, "malformed header"),
         4 => (vec![format!("Authorization: Bearer {}", basic(USER, PASS).rsplit(' ').next().unwrap())], false, "non-Basic scheme"),
         5 => (vec![basic(USER, &format!("{} ", PASS))], false, "password with trailing space"),
+        // near-misses of the correct header value: prefixes, the bare scheme, an empty value, an extension
+        6 => (vec![{ let h = basic(USER, PASS); h[..h.len() - 1].to_string() }], false, "correct header cut by one character"),
+        7 => (vec![{ let h = basic(USER, PASS); h[..("Authorization: Basic ".len() + 6)].to_string() }], false, "correct header cut after 6 characters"),
+        8 => (vec!["Authorization: Basic".to_string()], false, "scheme only"),
+        9 => (vec!["Authorization:".to_string()], false, "empty value"),
+        10 => (vec![format!("{}x", basic(USER, PASS))], false, "correct header plus a trailing character"),
+        11 => (vec![basic(USER, &PASS[..PASS.len() - 1])], false, "password cut by one character"),
         _ => (vec![basic(USER, PASS)], true, "correct"),
     }
 }
@@ -150,7 +157,7 @@ fn run_server(auth_enabled: bool, ev: &mut Evidence) -> Result<(), Failure> {
                 }
                 let protected = listed.contains(&m.to_string()) || mutated;
                 // ---- every credential kind x every request form
-                for ck in 0..7u8 {
+                for ck in 0..13u8 {
                     let (headers, valid, cname) = creds(ck);
                     let admitted = valid || !auth_enabled;
                     // single call
@@ -238,7 +245,7 @@ fn run_server(auth_enabled: bool, ev: &mut Evidence) -> Result<(), Failure> {
         }
         // commit is not visible through queries: unauthorized commit must not make uncommitted blocks durable
         if auth_enabled {
-            for ck in 0..6u8 {
+            for ck in 0..12u8 {
                 let (headers, _, cname) = creds(ck);
                 fx.refresh(false);
                 let h0 = fx.ctx.height;
@@ -285,7 +292,7 @@ impl Property for C12 {
             return vec![];
         }
         ev.assumptions.push("the protected set is (declared INDEXER_METHODS) union (methods that change the public state digest when called with credentials and well-typed parameters); a real server is started through the public start() on a loopback port and driven with hand-written HTTP/1.1".into());
-        ev.rules.push("[matrix] exhaustive: every registered method x {boundary, mid-block} x {call, notification, element at every position of batches of 2-4 mixed with permitted calls} x 7 credential kinds (none, wrong user, wrong password, malformed, non-Basic, near-miss, correct) x {auth enabled, disabled}; non-trivial = a protected method refused as a batch element among permitted calls that were answered".into());
+        ev.rules.push("[matrix] exhaustive: every registered method x {boundary, mid-block} x {call, notification, element at every position of batches of 2-4 mixed with permitted calls} x 13 credential kinds (none, wrong user, wrong password, malformed, non-Basic, near-misses: trailing space in the password, the correct header cut by one / cut short, scheme only, empty value, one trailing character, password cut by one; and correct) x {auth enabled, disabled}; non-trivial = a protected method refused as a batch element among permitted calls that were answered".into());
         ev.exhaustive = Some(true);
         let mut found = vec![];
         for auth in [true, false] {
